@@ -388,7 +388,7 @@ def inline_helpers(source, qual, names):
                 if start is None and has_self and toks[k - 1].text == ".":
                     # R15b: any simple receiver — the helper's `self` is bound to it and renamed in the body
                     rs = _receiver_start(toks, k - 1)
-                    if rs is not None and toks[rs].text not in ("self",):
+                    if rs is not None and not (toks[rs].text == "self" and rs == k - 2):      # `self.field.helper(..)` is a simple receiver too (seed C06-12)
                         start = rs
                         sv = f"__self_{len(edits)}"
                         recv_let = f"let {sv} = {self_bind}{src[toks[rs].start:toks[k - 2].end]}; "
